@@ -334,6 +334,32 @@ def gen_validation_failure(rng, **kw):
     return "\n".join(steps), invs, {"pools": pools}
 
 
+def gen_group_interrupt(rng, **kw):
+    """ctrl-c reaches the whole process group: every running command ends interrupted (outputs possibly half written).  Nothing
+    that was interrupted may be recorded; the next invocation rebuilds exactly those steps"""
+    n = rng.randint(2, 5)
+    lines = ["rule r", "  command = cmd $out $opts"]
+    for i in range(n):
+        lines.append("build o%d: r s%d" % (i, i))
+        if rng.random() < 0.5:
+            lines.append("  opts = partial")                 # the command has already created its output when it is killed
+    if rng.random() < 0.5:
+        lines.append("build all: r " + " ".join("o%d" % i for i in range(n)))
+    text = "\n".join(lines) + "\n"
+    steps = ["file %s %s" % (hx("build.ninja"), hx(text))] + ["file %s %s" % (hx("s%d" % i), hx("v0")) for i in range(n)]
+    j = rng.randint(2, 4)
+    k = rng.choice([None, None, 3])
+    first_ok = rng.randint(0, 1)
+    script = ",".join(["%d:0" % rng.randint(0, 3)] * first_ok + ["%d:2" % rng.randint(0, 3) for _ in range(j + 1)])
+    invs = []
+    steps.append(inv_cmd(j, k, False, [], script))
+    invs.append({"j": j, "k": k, "adopt": False, "targets": []})
+    j2 = rng.randint(1, 3)
+    steps.append(inv_cmd(j2, None, False, [], "-"))
+    invs.append({"j": j2, "k": None, "adopt": False, "targets": []})
+    return "\n".join(steps), invs, {"pools": []}
+
+
 def gen_pool_stress(rng, **kw):
     """gates -> pool members: members become ready at different moments of the build, some of them up to date, while
     other members of the same bounded pool run or wait"""
@@ -447,6 +473,8 @@ def gen_sched_or_regen(rng, **kw):
         return gen_pool_stress(rng)
     if rng.random() < 0.12:
         return gen_validation_failure(rng)
+    if rng.random() < 0.06:
+        return gen_group_interrupt(rng)
     return gen_sched_scenario(rng, **kw)
 
 
